@@ -79,6 +79,38 @@ def handle (st : DState) (kw : String) (toks : List Nat) : DState × String :=
         | some (fr, ft) =>
           let cs := Sug.candidates fr (Sug.gitRewrite target published fr ft).1
           "ok " ++ show_ (cs.length :: cs.flatMap (fun c => [optKey c.1, c.2])))
+  | "unpack" =>
+    match run (pair (pair (list (pair (list nat) upNode)) (pair (list nat) nat))
+                    (pair (pair (list upEntry) optNat) (pair bool (list upEntry)))) toks with
+    | none => (st, "bad-case")
+    | some ((fs, (srcDir, pfx)), ((archive, crash), (retry, archive2))) =>
+      let fs1 := Unpack.unpackPackage fs srcDir pfx archive crash
+      let ok1 := Unpack.fetchIsOk fs1 srcDir pfx
+      let fs2 := if retry then Unpack.fetch fs1 srcDir pfx archive2 else fs1
+      let ok2 := Unpack.fetchIsOk fs2 srcDir pfx
+      (st, "ok " ++ show_ ([b2n ok1, b2n ok2] ++ fsToks fs2))
+  | "auditall" =>
+    match run (pair (pair (list nat) (list nat)) (pair (pair nat (pair bool bool)) (list nat))) toks with
+    | none => (st, "bad-case")
+    | some ((who, crit), ((kind, (importable, hasNotes)), from_)) =>
+      let k : Serde.Kind := if kind = 0 then .full 1 else if kind = 1 then .delta 1 2 else .violation 0
+      let a : Serde.AuditEntry := ⟨who, crit, k, importable, if hasNotes then some 0 else none, from_⟩
+      let x := Serde.toAll a
+      (st, "ok " ++ show_ (strOrVecToks x.criteria ++
+        [b2n x.who.isSome, b2n x.version.isSome, b2n x.delta.isSome, b2n x.violation.isSome,
+         b2n x.importable.isSome, b2n x.notes.isSome, b2n x.aggregatedFrom.isSome]))
+  | "policykeys" =>
+    match run (list (pair nat (pair nat (list nat)))) toks with
+    | none => (st, "bad-case")
+    | some entries =>
+      -- each entry: name, 0 = unversioned | 1 = versioned with the listed versions
+      let p : List (Nat × Serde.PkgPolicy Nat) := entries.map (fun (n, (tag, vs)) =>
+        (n, if tag = 0 then .unversioned 0 else .versioned (vs.map (fun v => (v, 0)))))
+      let keys := Serde.encPolicy p
+      (st, "ok " ++ show_ (keys.length :: keys.flatMap (fun (k, _) =>
+        match k with
+        | .plain n => [n, 0]
+        | .withVersion n v => [n, v + 1])))
   | "world" =>
     match run world toks with
     | none => (st, "bad-case")
